@@ -82,6 +82,9 @@ def violation_menu():
         'ping-64bit': [SFrame(PING, b'p' * 300, lenform=64)],
         'masked-text': [SFrame(TEXT, b'hi', mask=MASK)],
         'masked-ping': [SFrame(PING, b'hi', mask=MASK)],
+        'masked-text-brace-key': [SFrame(TEXT, b'hi', mask=b'{key')],
+        'masked-binary-brace-key2': [SFrame(BINARY, b'hi', mask=b'ke}y')],
+        'masked-ping-brace-key3': [SFrame(PING, b'hi', mask=b'{0}%')],
         'orphan-cont': [SFrame(CONT, b'zz')],
         'orphan-cont-nofin': [SFrame(CONT, b'zz', fin=0)],
         'new-text-inside': [SFrame(TEXT, b'new')],
